@@ -1378,4 +1378,226 @@ theorem runProgram_wf {n : Int} {lo hi : Rat} (lt : Rat) (ops : List EditOp) (g 
     · exact ih g hg
 
 
+/-! ## Centroid refinement without bias correction (deepening round D): the pixel walk and its clamps -/
+
+theorem sum_nonneg_int (l : List Int) (h : ∀ x ∈ l, 0 ≤ x) : 0 ≤ l.sum := by
+  induction l with
+  | nil => simp
+  | cons a l ih =>
+    rw [List.sum_cons]
+    have := h a (by simp)
+    have := ih (fun x hx => h x (by simp [hx]))
+    omega
+
+theorem sum_nonpos_int (l : List Int) (h : ∀ x ∈ l, x ≤ 0) : l.sum ≤ 0 := by
+  induction l with
+  | nil => simp
+  | cons a l ih =>
+    rw [List.sum_cons]
+    have := h a (by simp)
+    have := ih (fun x hx => h x (by simp [hx]))
+    omega
+
+theorem pxAt_nonneg (col : List Int) (hc : ∀ v ∈ col, 0 ≤ v) (i : Int) : 0 ≤ pxAt col i := by
+  unfold pxAt
+  split
+  · exact le_refl _
+  · rw [List.getD_eq_getElem?_getD]
+    cases h : col[i.toNat]? with
+    | none => simp
+    | some v => simp only [Option.getD_some]; exact hc v (List.mem_of_getElem? h)
+
+theorem pxAt_neg (col : List Int) (i : Int) (h : i < 0) : pxAt col i = 0 := by
+  unfold pxAt; rw [if_pos h]
+
+theorem pxAt_beyond (col : List Int) (i : Int) (h : (col.length : Int) ≤ i) : pxAt col i = 0 := by
+  unfold pxAt
+  split
+  · rfl
+  · rw [List.getD_eq_getElem?_getD, List.getElem?_eq_none (by omega)]; rfl
+
+theorem m0At_nonneg (col : List Int) (hc : ∀ v ∈ col, 0 ≤ v) (h : Nat) (c : Int) : 0 ≤ m0At col h c := by
+  unfold m0At
+  apply sum_nonneg_int
+  intro x hx
+  obtain ⟨k, _, rfl⟩ := List.mem_map.1 hx
+  exact pxAt_nonneg col hc _
+
+theorem m1At_first_nonneg (col : List Int) (hc : ∀ v ∈ col, 0 ≤ v) (h : Nat) : 0 ≤ m1At col h 0 := by
+  unfold m1At
+  apply sum_nonneg_int
+  intro x hx
+  obtain ⟨k, _, rfl⟩ := List.mem_map.1 hx
+  by_cases hk : (k : Int) - (h : Int) < 0
+  · rw [pxAt_neg col _ (by omega)]; simp
+  · exact mul_nonneg (by omega) (pxAt_nonneg col hc _)
+
+theorem m1At_last_nonpos (col : List Int) (hc : ∀ v ∈ col, 0 ≤ v) (h : Nat) (n : Int) (hl : (col.length : Int) ≤ n) :
+    m1At col h (n - 1) ≤ 0 := by
+  unfold m1At
+  apply sum_nonpos_int
+  intro x hx
+  obtain ⟨k, _, rfl⟩ := List.mem_map.1 hx
+  by_cases hk : 0 < (k : Int) - (h : Int)
+  · rw [pxAt_beyond col _ (by omega)]; simp
+  · exact mul_nonpos_of_nonpos_of_nonneg (by omega) (pxAt_nonneg col hc _)
+
+theorem offsetAt_first_nonneg (eps : Rat) (heps : 0 < eps) (col : List Int) (hc : ∀ v ∈ col, 0 ≤ v) (h : Nat) :
+    0 ≤ offsetAt eps col h 0 := by
+  unfold offsetAt
+  have h0 : (0 : Rat) ≤ (m0At col h 0 : Rat) := by exact_mod_cast m0At_nonneg col hc h 0
+  have h1 : (0 : Rat) ≤ (m1At col h 0 : Rat) := by exact_mod_cast m1At_first_nonneg col hc h
+  exact div_nonneg h1 (by linarith)
+
+theorem offsetAt_last_nonpos (eps : Rat) (heps : 0 < eps) (col : List Int) (hc : ∀ v ∈ col, 0 ≤ v) (h : Nat) (n : Int)
+    (hl : (col.length : Int) ≤ n) : offsetAt eps col h (n - 1) ≤ 0 := by
+  unfold offsetAt
+  have h0 : (0 : Rat) ≤ (m0At col h (n - 1) : Rat) := by exact_mod_cast m0At_nonneg col hc h (n - 1)
+  have h1 : (m1At col h (n - 1) : Rat) ≤ 0 := by exact_mod_cast m1At_last_nonpos col hc h n hl
+  exact div_nonpos_of_nonpos_of_nonneg h1 (by linarith)
+
+theorem clampPt_range (n : Int) (hn : 1 ≤ n) (c : Int) : 0 ≤ clampPt n c ∧ clampPt n c < n := by
+  unfold clampPt
+  split
+  · omega
+  · split <;> omega
+
+theorem clampPt_id (n c : Int) (h0 : 0 ≤ c) (h1 : c < n) : clampPt n c = c := by
+  unfold clampPt
+  rw [if_neg (by omega), if_neg (by omega)]
+
+theorem refineIter_range (eps : Rat) (cols : List (List Int)) (h : Nat) (n : Int) (hn : 1 ≤ n) (pts : List (Int × Nat)) :
+    ∀ p ∈ (refineIter eps cols h n pts).1, 0 ≤ p.1 ∧ p.1 < n := by
+  intro p hp
+  unfold refineIter at hp
+  simp only [List.mem_map] at hp
+  obtain ⟨m, _, rfl⟩ := hp
+  exact clampPt_range n hn _
+
+theorem refineLoop_range (eps : Rat) (cols : List (List Int)) (h : Nat) (n : Int) (hn : 1 ≤ n) (fuel : Nat)
+    (pts pts' : List (Int × Nat)) (hr : refineLoop eps cols h n fuel pts = some pts') :
+    ∀ p ∈ pts', 0 ≤ p.1 ∧ p.1 < n := by
+  induction fuel generalizing pts with
+  | zero => simp [refineLoop] at hr
+  | succ f ih =>
+    unfold refineLoop at hr
+    simp only at hr
+    split at hr
+    · injection hr with hr; subst hr
+      exact refineIter_range eps cols h n hn pts
+    · exact ih _ hr
+
+/-- the hypotheses under which the walk is analysed: photon counts are non-negative, no scan line is longer than the image -/
+def ImageOK (cols : List (List Int)) (n : Int) : Prop :=
+  ∀ col ∈ cols, (∀ v ∈ col, 0 ≤ v) ∧ (col.length : Int) ≤ n
+
+theorem imageOK_getD (cols : List (List Int)) (n : Int) (hn : 0 ≤ n) (hi : ImageOK cols n) (t : Nat) :
+    (∀ v ∈ cols.getD t [], 0 ≤ v) ∧ ((cols.getD t []).length : Int) ≤ n := by
+  rw [List.getD_eq_getElem?_getD]
+  cases h : cols[t]? with
+  | none => simp; exact hn
+  | some col => simp only [Option.getD_some]; exact hi col (List.mem_of_getElem? h)
+
+/-- a point inside a non-negative image is never pushed over the edge -/
+theorem movePt_inside (eps : Rat) (heps : 0 < eps) (cols : List (List Int)) (h : Nat) (n : Int) (hi : ImageOK cols n)
+    (p : Int × Nat) (hp : 0 ≤ p.1 ∧ p.1 < n) :
+    0 ≤ (movePt eps cols h p).1 ∧ (movePt eps cols h p).1 < n := by
+  obtain ⟨hc, hl⟩ := imageOK_getD cols n (by omega) hi p.2
+  unfold movePt
+  simp only
+  split
+  · rename_i hoff
+    refine ⟨by simp only; omega, ?_⟩
+    simp only
+    by_contra hcon
+    have : p.1 = n - 1 := by omega
+    have := offsetAt_last_nonpos eps heps _ hc h n hl
+    rw [‹p.1 = n - 1›] at hoff
+    linarith
+  · split
+    · rename_i _ hoff
+      refine ⟨?_, by simp only; omega⟩
+      simp only
+      by_contra hcon
+      have h0 : p.1 = 0 := by omega
+      have := offsetAt_first_nonneg eps heps _ hc h
+      rw [h0] at hoff
+      linarith
+    · exact hp
+
+theorem movePt_unmoved (eps : Rat) (cols : List (List Int)) (h : Nat) (p : Int × Nat)
+    (hm : (movePt eps cols h p).2.2 = false) :
+    (movePt eps cols h p).1 = p.1 ∧ (movePt eps cols h p).2.1 = p.2 ∧
+      -(1/2 : Rat) ≤ offsetAt eps (cols.getD p.2 []) h p.1 ∧ offsetAt eps (cols.getD p.2 []) h p.1 ≤ 1/2 := by
+  unfold movePt at hm ⊢
+  simp only at hm ⊢
+  split
+  · rename_i h1; rw [if_pos h1] at hm; simp at hm
+  · rename_i h1
+    rw [if_neg h1] at hm
+    split
+    · rename_i h2; rw [if_pos h2] at hm; simp at hm
+    · rename_i h2
+      exact ⟨rfl, rfl, by linarith [not_lt.1 h2], not_lt.1 h1⟩
+
+/-- the pass after which the loop stops moved no point: the points are as before and every offset is within half a pixel -/
+theorem refineIter_stop (eps : Rat) (heps : 0 < eps) (cols : List (List Int)) (h : Nat) (n : Int) (hi : ImageOK cols n)
+    (pts : List (Int × Nat)) (hin : ∀ p ∈ pts, 0 ≤ p.1 ∧ p.1 < n) (hz : (refineIter eps cols h n pts).2 = 0) :
+    (refineIter eps cols h n pts).1 = pts ∧
+      ∀ p ∈ pts, -(1/2 : Rat) ≤ offsetAt eps (cols.getD p.2 []) h p.1 ∧ offsetAt eps (cols.getD p.2 []) h p.1 ≤ 1/2 := by
+  unfold refineIter at hz ⊢
+  simp only at hz ⊢
+  have hlow : ((pts.map (movePt eps cols h)).filter fun m => decide (m.1 < 0)) = [] := by
+    rw [List.filter_eq_nil_iff]
+    intro m hm
+    obtain ⟨p, hp, rfl⟩ := List.mem_map.1 hm
+    have := movePt_inside eps heps cols h n hi p (hin p hp)
+    simp only [decide_eq_true_eq]; omega
+  have hhigh : ((pts.map (movePt eps cols h)).filter fun m => decide (m.1 ≥ n)) = [] := by
+    rw [List.filter_eq_nil_iff]
+    intro m hm
+    obtain ⟨p, hp, rfl⟩ := List.mem_map.1 hm
+    have := movePt_inside eps heps cols h n hi p (hin p hp)
+    simp only [decide_eq_true_eq]; omega
+  rw [hlow, hhigh] at hz
+  simp only [List.length_nil, Int.natCast_zero, Int.sub_zero] at hz
+  have hnone : ((pts.map (movePt eps cols h)).filter fun m => m.2.2) = [] := by
+    apply List.eq_nil_of_length_eq_zero
+    exact_mod_cast hz
+  rw [List.filter_eq_nil_iff] at hnone
+  have hun : ∀ p ∈ pts, (movePt eps cols h p).2.2 = false := by
+    intro p hp
+    have := hnone (movePt eps cols h p) (List.mem_map.2 ⟨p, hp, rfl⟩)
+    simpa using this
+  constructor
+  · rw [List.map_map]
+    conv => rhs; rw [← List.map_id pts]
+    apply List.map_congr_left
+    intro p hp
+    obtain ⟨e1, e2, _, _⟩ := movePt_unmoved eps cols h p (hun p hp)
+    have := hin p hp
+    simp only [Function.comp, id, e1, e2, clampPt_id n p.1 this.1 this.2]
+  · intro p hp
+    obtain ⟨_, _, e3, e4⟩ := movePt_unmoved eps cols h p (hun p hp)
+    exact ⟨e3, e4⟩
+
+theorem refineLoop_settled (eps : Rat) (heps : 0 < eps) (cols : List (List Int)) (h : Nat) (n : Int) (hn : 1 ≤ n)
+    (hi : ImageOK cols n) (fuel : Nat) (pts pts' : List (Int × Nat)) (hin : ∀ p ∈ pts, 0 ≤ p.1 ∧ p.1 < n)
+    (hr : refineLoop eps cols h n fuel pts = some pts') :
+    ∀ p ∈ pts', (0 ≤ p.1 ∧ p.1 < n) ∧
+      -(1/2 : Rat) ≤ offsetAt eps (cols.getD p.2 []) h p.1 ∧ offsetAt eps (cols.getD p.2 []) h p.1 ≤ 1/2 := by
+  induction fuel generalizing pts with
+  | zero => simp [refineLoop] at hr
+  | succ f ih =>
+    unfold refineLoop at hr
+    simp only at hr
+    split at hr
+    · rename_i hz
+      injection hr with hr
+      obtain ⟨e, hs⟩ := refineIter_stop eps heps cols h n hi pts hin hz
+      rw [e] at hr; subst hr
+      exact fun p hp => ⟨hin p hp, hs p hp⟩
+    · exact ih _ (refineIter_range eps cols h n hn pts) hr
+
+
 end Verif.C08
